@@ -571,8 +571,17 @@ class VcfReader:
         :param regions: a list of start, end tuples (end can be None)
         """
         records = []
-        for start, end in regions:
-            records.extend(list(self._fetch(chromosome, start=start, end=end)))
+        previous_end = None
+        for start, end in sorted(regions, key=lambda region: region[0]):
+            for record in self._fetch(chromosome, start=start, end=end):
+                if previous_end is not None and record.start < previous_end:
+                    # The record (a long deletion, say) also overlaps the previous region and
+                    # has been fetched already
+                    continue
+                records.append(record)
+            if end is None:
+                break
+            previous_end = end if previous_end is None else max(previous_end, end)
         return self._process_single_chromosome(chromosome, records)
 
     def __iter__(self) -> Iterator[VariantTable]:
